@@ -7,18 +7,72 @@ _TUS = [_P + x for x in ('cppStructType.cxx', 'cppExtensionType.cxx', 'cppScope.
                          'cppSimpleType.cxx', 'cppConstType.cxx', 'cppReferenceType.cxx', 'cppType.cxx', 'cppDeclaration.cxx',
                          'cppAttributeList.cxx', 'cppFile.cxx')] + ['src/dtoolutil/filename.cxx']
 _CUT = ['_ZN7CPPType8new_typeEPS_']
-_SKIP = [x.split('/')[-1] for x in _TUS]
+_SKIP = [x.split('/')[-1] for x in _TUS] + ['cppExpression.cxx']
+_LOOPS = {'harness_c10_traits.0': 20, 'harness_c10_traits.1': 20, '_ZL11check_classii.0': 50, '_ZL11check_classii.1': 50,
+          '_ZL11check_classii.2': 50, '_ZL11check_classii.3': 50, 'll_memcpy.0': 48, 'll_memmove.0': 48}
+_DOMAIN = ('one class A, no bases, one data member; WHICH of A(), A(const A&), ~A(), virtual void f()=0 exist and whether each '
+           'is user-provided / =default / =delete / virtual are enumerated by concrete loops (they shape the std::list of virtual '
+           'functions); the ACCESS of each special member (public/protected/private) is symbolic')
+_ORACLE = ('is_abstract / is_polymorphic / is_destructible / is_default_constructible / is_copy_constructible equal the C++ rules of '
+           'harness/c10_oracle.h, which harness/c10_oracle_check.py validates against g++ -std=c++17 on the whole lattice '
+           '(13000 classes x 5 std::is_* traits)')
 
-def _h(hid, defs, cap=400):
-    return {'id': hid, 'property': 'C10', 'src': 'c10_traits.cxx', 'entry': 'harness_c10_traits', 'tus': _TUS, 'cut': _CUT, 'skip_ctors': _SKIP,
-            'models': ['list.c'], 'desc': 'x', 'domain': 'x', 'oracle': 'x',
-            'bounds': {'quick': {'defs': defs, 'unwind': 7, 'unwindset': {'harness_c10_traits.0': 20, 'harness_c10_traits.1': 20, '_ZL11check_classii.0': 50, '_ZL11check_classii.1': 50, '_ZL11check_classii.2': 50, '_ZL11check_classii.3': 50, 'll_memcpy.0': 48, 'll_memmove.0': 48}, 'cap': cap}}}
+
+def _presence(*pats):
+    return '0x%x' % sum(1 << p for p in pats)
 
 
+def _h(hid, desc, defs, cap=600, tdefs=None, tcap=2400, tiers=None, extra_tus=()):
+    d = {'id': hid, 'property': 'C10', 'src': 'c10_traits.cxx', 'entry': 'harness_c10_traits', 'tus': _TUS + list(extra_tus), 'cut': _CUT,
+         'skip_ctors': _SKIP, 'models': ['list.c'], 'desc': desc, 'domain': _DOMAIN + '; here: ' + desc, 'oracle': _ORACLE,
+         'bounds': {'quick': {'defs': defs, 'unwind': 7, 'unwindset': _LOOPS, 'cap': cap}}}
+    if tdefs is not None:
+        d['bounds']['thorough'] = {'defs': tdefs, 'unwind': 7, 'unwindset': _LOOPS, 'cap': tcap}
+    if tiers:
+        d['tiers'] = tiers
+    return d
+
+
+# presence pattern p: bit 0 = A(), bit 1 = A(const A&), bit 2 = ~A(), bit 3 = pure virtual f
 HARNESSES = [
- _h('c10_k1', {'MEMS': 1, 'PRESENCE': '0x80', 'DTORS': 0}, cap=300),
- _h('c10_k2', {'MEMS': 1, 'PRESENCE': '0x02', 'DTORS': 0}, cap=300),
+    _h('c10_core_a', 'member int, destructible class (destructor absent or public, not deleted); at most one special member',
+       {'MEMS': 1, 'DTORS': 0, 'PRESENCE': _presence(0, 1, 2, 4)}),
+    _h('c10_core_b1', 'member int, destructible class; A() and A(const A&) declared (every pair of kinds)',
+       {'MEMS': 1, 'DTORS': 0, 'PRESENCE': _presence(3)}),
+    _h('c10_core_b2', 'member int, destructible class; a constructor and ~A() declared (every pair of kinds)',
+       {'MEMS': 1, 'DTORS': 0, 'PRESENCE': _presence(5, 6)}),
+    _h('c10_core_c', 'member int, destructible class; A(), A(const A&) and ~A() all declared (27 kind combinations)',
+       {'MEMS': 1, 'DTORS': 0, 'PRESENCE': _presence(7)}),
+    _h('c10_core_pv', 'abstract class (pure virtual f) with at most one constructor declared (thorough: any special members), member int',
+       {'MEMS': 1, 'DTORS': 0, 'PRESENCE': _presence(8, 9, 10)},
+       tdefs={'MEMS': 1, 'DTORS': 0, 'PRESENCE': _presence(8, 9, 10, 12, 11, 13, 14, 15)}),
+    _h('c10_dtor_own', 'member int, ANY destructor (user / =default / =delete / virtual x access): is_destructible, is_abstract, '
+       'is_polymorphic only', {'MEMS': 1, 'DTORS': 1, 'CHECKS': '0x1c', 'PRESENCE': _presence(4, 5, 6)},
+       tdefs={'MEMS': 1, 'DTORS': 1, 'CHECKS': '0x1c', 'PRESENCE': _presence(4, 5, 6, 7, 12)}),
+    _h('c10_dtor_all', 'member int, ANY destructor, all three special members declared: all five traits (thorough only)',
+       {'MEMS': 1, 'DTORS': 1, 'PRESENCE': _presence(7)}, cap=2400, tiers=('thorough',)),
+    _h('c10_dtor_ctor', 'member int, ANY destructor: is_default_constructible / is_copy_constructible (the compiler\'s traits '
+       'require an accessible, non-deleted destructor)', {'MEMS': 1, 'DTORS': 1, 'CHECKS': '0x03', 'PRESENCE': _presence(4, 5)},
+       tdefs={'MEMS': 1, 'DTORS': 1, 'CHECKS': '0x03', 'PRESENCE': _presence(4, 5, 6)}),
+    _h('c10_members', 'member const int / int& (no initializer), destructible class; zero to two constructors declared',
+       {'MEMS': 6, 'DTORS': 0, 'PRESENCE': _presence(0, 1)}, tdefs={'MEMS': 6, 'DTORS': 0, 'PRESENCE': _presence(0, 1, 2, 3)}),
+    _h('c10_member_init', 'member with a default member initializer (int m = 0; const int m = 0;)',
+       {'MEMS': '0x18', 'DTORS': 0, 'PRESENCE': _presence(0, 1)}, tdefs={'MEMS': '0x18', 'DTORS': 0, 'PRESENCE': _presence(0, 1, 2, 3)},
+       extra_tus=[_P + 'cppExpression.cxx']),
 ]
 
-PROPERTY_INFO = {'C10': {'level': 'model_checking', 'explanation': 'x', 'outside': 'x', 'assumptions': []}}
+PROPERTY_INFO = {'C10': {'level': 'model_checking',
+         'explanation': 'bounded symbolic execution (CBMC) of CPPStructType::is_abstract / is_polymorphic / is_destructible / '
+                        'is_default_constructible / is_copy_constructible (with get_*_constructor, get_destructor, '
+                        'get_virtual_funcs, get_pure_virtual_funcs and the is_* of CPPSimpleType/CPPConstType/CPPReferenceType) on '
+                        'a class built with the real constructors; oracle validated against g++',
+         'outside': 'base classes and class-type members (recursion over a class graph), move constructors and assignment operators, '
+                    'templates, unions; the parser actions that build the scope (add_declaration / check_for_constructor are mimicked '
+                    'by the harness); the builder\'s consequence (which implicit constructors are exported, '
+                    'interrogateBuilder.cxx define_struct_type)',
+         'assumptions': ['CPPType::new_type (uniquing in a static std::set) is replaced by the identity',
+                         'the class scope is filled the way CPPScope::handle_declaration and CPPInstance::check_for_constructor '
+                         'leave it (function groups by name, F_constructor/F_copy_constructor/F_destructor flags, _vis)',
+                         'oracle = std::is_* traits of g++ -std=c++17 (harness/c10_oracle_check.py)']}}
+
 NOT_APPLICABLE = {}
